@@ -1,6 +1,7 @@
 package props
 
 import (
+	"bytes"
 	"encoding/binary"
 	"encoding/json"
 	"fmt"
@@ -36,6 +37,19 @@ type c18Case struct {
 	Outs     []int  `json:"outs"`
 	Version  int32  `json:"version"`
 	LockTime uint32 `json:"locktime"`
+	// explicit elements (single-position-difference family): used instead of Ins / Outs when set
+	XIns  []c18XIn  `json:"explicit_ins,omitempty"`
+	XOuts []c18XOut `json:"explicit_outs,omitempty"`
+}
+
+type c18XIn struct {
+	Hash  string `json:"hash_hex"`
+	Index uint32 `json:"index"`
+}
+
+type c18XOut struct {
+	Amount int64  `json:"amount"`
+	Script string `json:"script_hex"`
 }
 
 var (
@@ -63,6 +77,15 @@ const (
 
 func (cas c18Case) build() *wire.MsgTx {
 	tx := &wire.MsgTx{Version: cas.Version, LockTime: cas.LockTime}
+	for k, x := range cas.XIns {
+		in := &wire.TxIn{Sequence: uint32(k + 1), SignatureScript: []byte{0x51, byte(k)}}
+		copy(in.PreviousOutPoint.Hash[:], mc.UnHex(x.Hash))
+		in.PreviousOutPoint.Index = x.Index
+		tx.TxIn = append(tx.TxIn, in)
+	}
+	for _, x := range cas.XOuts {
+		tx.TxOut = append(tx.TxOut, &wire.TxOut{Value: x.Amount, PkScript: mc.UnHex(x.Script)})
+	}
 	for k, e := range cas.Ins {
 		in := &wire.TxIn{Sequence: uint32(k + 1), SignatureScript: []byte{0x51, byte(k)}}
 		in.PreviousOutPoint.Hash = c18Hashes[(e/4)%4]
@@ -487,4 +510,51 @@ func runC18(c *mc.Ctx) {
 	})
 	c.Sample("tx", c18Case{Ins: []int{4, 0, 4}, Outs: []int{24, 7, 6}, Version: 1})
 	c.Sample("tx", c18Case{Ins: []int{15, 8, 2, 1}, Outs: []int{}, Version: 2, LockTime: math.MaxUint32})
+	// Single-position differences: two keys that differ in exactly ONE byte (every byte position of
+	// the previous txid, of the index, of the amount, of equal-length scripts) and in nothing else,
+	// in both orders and with a third element — a comparator that skips or mis-weights one position
+	// is invisible to alphabets whose elements differ in several positions at once.
+	{
+		var xs []c18Case
+		pairs := [][2]byte{{0x00, 0x01}, {0x01, 0x02}, {0x7f, 0x80}, {0xfe, 0xff}}
+		for pos := 0; pos < 32; pos++ {
+			for _, pr := range pairs {
+				a, b := bytes.Repeat([]byte{0x55}, 32), bytes.Repeat([]byte{0x55}, 32)
+				a[pos], b[pos] = pr[0], pr[1]
+				third := bytes.Repeat([]byte{0x55}, 32)
+				third[31-pos] = 0x56
+				A, B, T := c18XIn{mc.Hex(a), 1}, c18XIn{mc.Hex(b), 1}, c18XIn{mc.Hex(third), 0}
+				xs = append(xs, c18Case{XIns: []c18XIn{A, B}}, c18Case{XIns: []c18XIn{B, A}},
+					c18Case{XIns: []c18XIn{B, T, A}}, c18Case{XIns: []c18XIn{A, T, B}}, c18Case{XIns: []c18XIn{T, B, A}})
+			}
+		}
+		h := mc.Hex(bytes.Repeat([]byte{0x33}, 32))
+		for bit := 0; bit < 32; bit++ { // equal txids, indexes differing in one bit
+			lo, hi := uint32(0), uint32(1)<<uint(bit)
+			xs = append(xs, c18Case{XIns: []c18XIn{{h, hi}, {h, lo}}}, c18Case{XIns: []c18XIn{{h, lo}, {h, hi}}},
+				c18Case{XIns: []c18XIn{{h, hi | 1}, {h, hi}}})
+		}
+		for bit := 0; bit < 63; bit++ { // amounts differing in one bit, equal scripts
+			lo, hi := int64(0), int64(1)<<uint(bit)
+			xs = append(xs, c18Case{XOuts: []c18XOut{{hi, "51"}, {lo, "51"}}}, c18Case{XOuts: []c18XOut{{lo, "51"}, {hi, "51"}}},
+				c18Case{XOuts: []c18XOut{{hi | 1, "51"}, {hi, "51"}, {1, "51"}}})
+		}
+		for L := 1; L <= 12; L++ { // equal amounts, equal-length scripts differing at one position; prefixes
+			for pos := 0; pos < L; pos++ {
+				for _, pr := range pairs {
+					a, b := bytes.Repeat([]byte{0x55}, L), bytes.Repeat([]byte{0x55}, L)
+					a[pos], b[pos] = pr[0], pr[1]
+					xs = append(xs, c18Case{XOuts: []c18XOut{{7, mc.Hex(b)}, {7, mc.Hex(a)}}}, c18Case{XOuts: []c18XOut{{7, mc.Hex(a)}, {7, mc.Hex(b)}}})
+				}
+			}
+			full := bytes.Repeat([]byte{0x55}, L)
+			xs = append(xs, c18Case{XOuts: []c18XOut{{7, mc.Hex(full)}, {7, mc.Hex(full[:L-1])}}}, c18Case{XOuts: []c18XOut{{7, mc.Hex(full[:L-1])}, {7, mc.Hex(full)}}})
+		}
+		c.Space("single-position differences (txid byte, index bit, amount bit, script byte, script prefix)", int64(len(xs)))
+		c.ParFor(int64(len(xs)), func(w *mc.W, i int64) {
+			w.State()
+			c18Eval(w, xs[i])
+		})
+	}
+
 }
